@@ -152,6 +152,7 @@ pub fn property() -> Property {
             |_, i| LineCase { line: repo_lines()[i as usize].clone() },
             check,
         ),
+        prop_family("segment-lines", 300_000, 3_000_000, |_| super::c12::seg_line().prop_map(|l| LineCase { line: super::c12::base_text(&l) }), check),
         prop_family("atoms-random", 1_000_000, 10_000_000, |_| atom_line(40).prop_map(|line| LineCase { line }), check),
         prop_family(
             "raw-text",
@@ -163,7 +164,7 @@ pub fn property() -> Property {
     ];
     Property {
         id: "C13",
-        rule: "Lines over a 40-atom alphabet (keywords, identifiers incl. keyword-containing ones, numerals incl. spaced and dotted, one- and two-character operators incl. spaced, quotes, strings with multi-byte text, blanks, tabs, multi-byte and illegal characters): all atom strings up to length 3 (quick) / 5 (thorough) exhaustively, random ones up to length 40, every line of the repo's programs and test sources, and raw printable/Unicode text. Oracle: ranges in bounds, on char boundaries, ordered, disjoint, only blanks between them, starting/ending on non-blanks (REM to end of line, DATA to end of line or colon), and tokenizing each range's text alone yields exactly that token; on failure the error start is in the line, on a char boundary, and the prefix tokenizes to exactly the tokens reported before the error. Non-trivial: a tokenizable line with >= 3 tokens and a blank or multi-byte character inside or adjacent to a token; distinct by text.",
+        rule: "Lines over a 40-atom alphabet (keywords, identifiers incl. keyword-containing ones, numerals incl. spaced and dotted, one- and two-character operators incl. spaced, quotes, strings with multi-byte text, blanks, tabs, multi-byte and illegal characters): all atom strings up to length 3 (quick) / 5 (thorough) exhaustively, random ones up to length 40, the token-dense segment lines of C12 (identifiers over every letter, tight digit-letter-sign-digit runs, DATA chunks, REM tails), every line of the repo's programs and test sources, and raw printable/Unicode text. Oracle: ranges in bounds, on char boundaries, ordered, disjoint, only blanks between them, starting/ending on non-blanks (REM to end of line, DATA to end of line or colon), and tokenizing each range's text alone yields exactly that token; on failure the error start is in the line, on a char boundary, and the prefix tokenizes to exactly the tokens reported before the error. Non-trivial: a tokenizable line with >= 3 tokens and a blank or multi-byte character inside or adjacent to a token; distinct by text.",
         assumptions: vec!["the hook tokenize_with_ranges iterates the real Tokenizer with skip_bytes=0 and reports TokenizationError::string_range"],
         fuzz: Some(FuzzSpec { target: "c13_ranges", runs: 2_000_000, max_len: 256, verdict: crate::fuzz::c13_verdict }),
         families,
